@@ -292,6 +292,20 @@ static void __attribute__((noinline)) cycles_build(long n) {
   }
 }
 
+/* containers of Boxes that the COLLECTOR (not an explicit del) deletes: each container's destructor deletes what its Boxes
+   own, in the middle of the sweep that also has those objects on its list; some Boxes have been emptied before */
+static void __attribute__((noinline)) boxcont_build(long n) {
+  var a = new(Array, Box), l = new(List, Box), t = new(Table, Int, Box), r = new(Tree, Int, Box);
+  for (long i = 0; i < n; i++) {
+    var nd = new(Node, $I(1000 + i));
+    switch (i % 4) { case 0: push(a, nd); break; case 1: push(l, nd); break; case 2: set(t, $I(i), $(Box, nd)); break; default: set(r, $I(i), $(Box, nd)); }       /* a map takes a value of its value type */
+  }
+  if (len(a) > 1) ref(get(a, $I(1)), NULL);               /* emptied: the Node it owned is plain garbage now */
+  if (len(l) > 0) ref(get(l, $I(0)), NULL);
+  var e1 = alloc(Box); (void)e1;                          /* a heap Box that never owned anything */
+  var e2 = new(Box, new(Node, $I(1000 + n))); ref(e2, NULL);    /* ... and one that gave its object up */
+}
+
 static int kind_of(const char* s) { for (int k = 1; k <= K_TREEK; k++) if (!strcmp(s, KN[k])) return k; return 0; }
 
 static int wfd = 1;
@@ -454,6 +468,13 @@ static int __attribute__((noinline)) real_main(int argc, char** argv) {
       bulkn = 0;
       HC_TRY(cycles_build(n); scrub(); do_collect(0); do_collect(1); do_collect(0));
       long twice = 0, gone = 0; for (long i = 0; i < n; i++) { if (fin_count[1000 + i] > 1) twice++; if (fin_count[1000 + i] == 1) gone++; }
+      ev_begin("bulk"); ev_int("n", n); ev_int("rooted", 0); ev_int("lost", 0); ev_int("twice", twice); ev_int("stale", 0); ev_int("gone", gone);
+      ev_str("exc", hc_exc); ev_int("line", cur_line); ev_end();
+    } else if (hc_is(0, "boxcont")) {          /* boxcont <n> : containers of Boxes become garbage and are collected */
+      long n = (long)hc_int(1); if (n > 20000) n = 20000;
+      bulkn = n + 1;                              /* teardown at the latest finalises every one of them, once */
+      HC_TRY(boxcont_build(n); scrub(); do_collect(0); do_collect(1); do_collect(0));
+      long twice = 0, gone = 0; for (long i = 0; i <= n; i++) { if (fin_count[1000 + i] > 1) twice++; if (fin_count[1000 + i] == 1) gone++; }
       ev_begin("bulk"); ev_int("n", n); ev_int("rooted", 0); ev_int("lost", 0); ev_int("twice", twice); ev_int("stale", 0); ev_int("gone", gone);
       ev_str("exc", hc_exc); ev_int("line", cur_line); ev_end();
     } else if (hc_is(0, "viewcopy")) {         /* copies of views are ordinary managed objects */
